@@ -224,8 +224,10 @@ def job_stack3(spec):
     A.math = MathShim()
     g1, g2 = eng.real("g1"), eng.real("g2")
     eng.assume(g1.e > 0, g1.e <= 8, g2.e > 0, g2.e <= 8)
-    idents = [("A", 5, None), ("A", 6, None), ("B", 1, None)]
+    idents = [("A", 5, None), ("A", 6, None), ("B", 1, None)] if model_arg != "icode" else [("A", 6, None), ("A", 6, "A"), ("A", 6, "B")]
     idents = [idents[k] for k in perm]
+    if model_arg == "icode":
+        model_arg = None
     models = [1, 1, 2] if model_arg is not None else [1, 1, 1]
     zs = [eng.const(0), g1, g1 + g2]
 
@@ -240,7 +242,7 @@ def job_stack3(spec):
     def run():
         return A.find_stackings(Structure3D([mk(0), mk(1), mk(2)]), model_arg)
     paths = eng.explore(run)
-    res = {"name": f"stack3:{perm}:model{model_arg}", "paths": len(paths), "verdicts": [], "reach": 0}
+    res = {"name": f"stack3:{perm}:model{spec[1]}", "paths": len(paths), "verdicts": [], "reach": 0}
     for path, out in paths:
         if isinstance(out, Exception):
             v, m, _ = eng.prove(path, z3.BoolVal(True))
@@ -248,7 +250,7 @@ def job_stack3(spec):
             continue
         if out:
             res["reach"] += 1
-        keys = [((s.nt1.auth.chain, s.nt1.auth.number), (s.nt2.auth.chain, s.nt2.auth.number)) for s in out]
+        keys = [((s.nt1.auth.chain, s.nt1.auth.number, s.nt1.auth.icode or " "), (s.nt2.auth.chain, s.nt2.auth.number, s.nt2.auth.icode or " ")) for s in out]
         problems = []
         if len(set(keys)) != len(keys):
             problems.append("a stacking repeats")
@@ -258,13 +260,13 @@ def job_stack3(spec):
             problems.append("a stacking does not list the lower residue first")
         if keys != sorted(keys):
             problems.append("stackings are not sorted")
-        allowed = {(idents[k][0], idents[k][1]) for k in range(3) if model_arg is None or models[k] == model_arg}
+        allowed = {(idents[k][0], idents[k][1], idents[k][2] or " ") for k in range(3) if model_arg is None or models[k] == model_arg}
         if any(a not in allowed or b not in allowed for a, b in keys):
             problems.append("a stacking names a residue outside the analysed model")
         # each geometric pair at most once and exactly when within 6 A (normals parallel, offset along the normal)
         neg = []
         for (i, j), dist in (((0, 1), g1.e), ((1, 2), g2.e), ((0, 2), g1.e + g2.e)):
-            pair = tuple(sorted(((idents[i][0], idents[i][1]), (idents[j][0], idents[j][1]))))
+            pair = tuple(sorted(((idents[i][0], idents[i][1], idents[i][2] or " "), (idents[j][0], idents[j][1], idents[j][2] or " "))))
             listed = pair in keys
             inmodel = pair[0] in allowed and pair[1] in allowed
             if listed:
@@ -274,12 +276,12 @@ def job_stack3(spec):
         if problems:
             v, m, _ = eng.prove(path, z3.BoolVal(True))
             res["verdicts"].append({"ob": "; ".join(problems), "v": v, "key": "find_stackings:list-shape",
-                                    "w": None if m is None else {"perm": list(perm), "model": model_arg,
+                                    "w": None if m is None else {"perm": list(perm), "model": spec[1],
                                                                  "g1": float(m.eval(g1.e, model_completion=True).as_fraction()),
                                                                  "g2": float(m.eval(g2.e, model_completion=True).as_fraction())}})
         v, m, _ = eng.prove(path, z3.Or(neg + [z3.BoolVal(False)]))
         res["verdicts"].append({"ob": f"stackings {keys} do not match the pairs within 6 A", "v": v, "key": "find_stackings:three-residues",
-                                "w": None if m is None else {"perm": list(perm), "model": model_arg,
+                                "w": None if m is None else {"perm": list(perm), "model": spec[1],
                                                              "g1": float(m.eval(g1.e, model_completion=True).as_fraction()),
                                                              "g2": float(m.eval(g2.e, model_completion=True).as_fraction())}})
     res.update(queries=eng.nq, solver_s=round(eng.tq, 2), unknown=eng.unknown, wall_s=round(time.time() - t0, 2))
@@ -292,18 +294,21 @@ import rnapolis.annotator as A
 from rnapolis.tertiary import Atom, Residue3D, Structure3D, BASE_ATOMS
 from rnapolis.common import ResidueAuth
 w = {w!r}
-idents = [("A", 5, None), ("A", 6, None), ("B", 1, None)]; idents = [idents[k] for k in w["perm"]]
+idents = [("A", 5, None), ("A", 6, None), ("B", 1, None)] if w["model"] != "icode" else [("A", 6, None), ("A", 6, "A"), ("A", 6, "B")]
+idents = [idents[k] for k in w["perm"]]
+if w["model"] == "icode": w["model"] = None
 models = [1, 1, 2] if w["model"] is not None else [1, 1, 1]
 zs = [0.0, w["g1"], w["g1"] + w["g2"]]
 def mk(k):
-    auth = ResidueAuth(idents[k][0], idents[k][1], None, "G")
+    auth = ResidueAuth(idents[k][0], idents[k][1], idents[k][2], "G")
     ats = tuple(Atom(None, None, auth, models[k], an, 1.0 * sg, 2.0 * sg, zs[k], 1.0) for an, sg in ((BASE_ATOMS["G"][0], 1), (BASE_ATOMS["G"][-1], -1)))
     r = Residue3D(None, auth, models[k], "G", ats); r.__dict__["base_normal_vector"] = numpy.array([0.0, 0.0, -1.0]); return r
 out = A.find_stackings(Structure3D([mk(0), mk(1), mk(2)]), w["model"])
-keys = [((s.nt1.auth.chain, s.nt1.auth.number), (s.nt2.auth.chain, s.nt2.auth.number)) for s in out]
-allowed = {{(idents[k][0], idents[k][1]) for k in range(3) if w["model"] is None or models[k] == w["model"]}}
-want = sorted(tuple(sorted(((idents[i][0], idents[i][1]), (idents[j][0], idents[j][1])))) for (i, j), d in (((0, 1), w["g1"]), ((1, 2), w["g2"]), ((0, 2), w["g1"] + w["g2"]))
-              if d <= 6 and (idents[i][0], idents[i][1]) in allowed and (idents[j][0], idents[j][1]) in allowed)
+K = lambda t: (t[0], t[1], t[2] or " ")
+keys = [(K((s.nt1.auth.chain, s.nt1.auth.number, s.nt1.auth.icode)), K((s.nt2.auth.chain, s.nt2.auth.number, s.nt2.auth.icode))) for s in out]
+allowed = {{K(idents[k]) for k in range(3) if w["model"] is None or models[k] == w["model"]}}
+want = sorted(tuple(sorted((K(idents[i]), K(idents[j])))) for (i, j), d in (((0, 1), w["g1"]), ((1, 2), w["g2"]), ((0, 2), w["g1"] + w["g2"]))
+              if d <= 6 and K(idents[i]) in allowed and K(idents[j]) in allowed)
 print(keys, want); sys.exit(1 if keys != want else 0)
 '''
 
@@ -389,9 +394,10 @@ def _dispatch(spec):
 def run(rep, tier):
     from vlib.core import Violation, VERIF
     from vlib.par import pmap, Crashed
-    specs = [("saenger", (0, 3)), ("saenger", (4, 8)), ("saenger", (9, 11)), ("saenger", (12, 17)), ("lists", ("bph-G", "fwd")), ("lists", ("bph-C", "fwd")), ("lists", ("bph-A", "rev")), ("lists", ("GC", "fwd")),
+    specs = [("saenger", (0, 2)), ("saenger", (3, 9)), ("saenger", (10, 13)), ("saenger", (14, 17)), ("lists", ("bph-G", "fwd")), ("lists", ("bph-C", "fwd")), ("lists", ("bph-G3", "fwd")), ("lists", ("bph-A", "rev")), ("lists", ("GC", "fwd")),
              ("lists", ("AU-rev", "rev")), ("lists", ("AG-sugar", "fwd")),
-             ("stack3", ((0, 1, 2), None)), ("stack3", ((2, 0, 1), None)), ("stack3", ((1, 0, 2), 1))]
+             ("stack3", ((0, 1, 2), None)), ("stack3", ((2, 0, 1), None)), ("stack3", ((1, 0, 2), 1)),
+             ("stack3", ((1, 0, 2), "icode")), ("stack3", ((2, 1, 0), "icode"))]
     if tier != "quick":
         specs += [("lists", ("bph-G", "rev")), ("lists", ("bph-C", "rev")), ("lists", ("bph-A", "fwd")), ("lists", ("GG-hoog", "fwd")),
                   ("stack3", ((2, 1, 0), None)), ("stack3", ((0, 2, 1), 1)), ("stack3", ((1, 2, 0), None))]
